@@ -1070,6 +1070,23 @@ fn emit_corr(ctx: &mut Ctx, case: &Case, bytes: &[u8], w: &Walk) {
     ctx.corr(format!("c07 counters {rps} {spc} {}", if lens.is_empty() { "-".into() } else { lens.join(",") }), infos.join(";"));
 }
 
+/// `Block::size()` (what `build_container` sums into the container length and the landmarks)
+/// against the bytes `write_block` writes for the same block.
+fn block_size_case(ctx: &mut Ctx, content_id: i32, len: usize) {
+    let case = format!("blocksize {content_id} {len}");
+    ctx.eval(Some(fnv(case.as_bytes())));
+    let data: Vec<u8> = (0..len).map(|i| (i * 31 + 7) as u8).collect();
+    match guarded(|| cram::verif::block_size_and_bytes(content_id, &data)) {
+        Ok(Ok((size, bytes))) => {
+            if size != bytes.len() {
+                ctx.fail("block-size-accounting", format!("external block id {content_id} with {len} data bytes: the writer accounts {size} bytes in the container length / landmarks, write_block writes {}", bytes.len()), case);
+            }
+        }
+        Ok(Err(e)) => ctx.fail("block-size-accounting", format!("external block id {content_id} with {len} data bytes: error {e}"), case),
+        Err(p) => ctx.fail("block-size-accounting", format!("external block id {content_id} with {len} data bytes: panic {p}"), case),
+    }
+}
+
 fn corr_fixed(ctx: &mut Ctx) {
     // ITF8 writer at the length-class boundaries, and the EOF container of an empty file
     for n in [0i32, 1, 127, 128, 16383, 16384, 2097151, 2097152, 268435455, 268435456, i32::MAX, -1, -2, i32::MIN, 4542278, 5130345] {
@@ -1079,6 +1096,33 @@ fn corr_fixed(ctx: &mut Ctx) {
             Err(e) => errclass(&e).to_string(),
         };
         ctx.corr(format!("c07 itf8 {n}"), a);
+    }
+    // the size the container writer accounts for an ITF8 integer (`itf8_size_of`, which feeds the
+    // container length and the landmarks), at and around every length-class boundary
+    let mut ns: Vec<i32> = vec![0, 1, -1, -2, i32::MAX, i32::MIN, i32::MIN + 1, 4542278, 5130345];
+    for k in [7u32, 14, 21, 28, 31] {
+        let b = 1i64 << k;
+        for d in -3i64..=3 {
+            for v in [b + d, -(b + d)] {
+                if let Ok(v) = i32::try_from(v) {
+                    ns.push(v);
+                }
+            }
+        }
+    }
+    let mut rng = Rng::new(ctx.seed ^ 0x17f8);
+    for _ in 0..ctx.n(200, 5_000) {
+        let bits = 1 + rng.below(32) as u32;
+        ns.push((rng.next() & ((1u64 << bits) - 1)) as u32 as i32);
+    }
+    for n in ns {
+        ctx.corr(format!("c07 itf8size {n}"), cram::verif::itf8_size_of(n).to_string());
+        block_size_case(ctx, n, 0);
+    }
+    // a block's accounted size is the number of bytes written for it, at and around the data
+    // lengths where the ITF8 size fields change length
+    for len in [0usize, 1, 126, 127, 128, 129, 16382, 16383, 16384, 16385, 2097151, 2097152, 2097153] {
+        block_size_case(ctx, 7, len);
     }
     let r = guarded(|| -> std::io::Result<Vec<u8>> {
         let header = sam::Header::default();
@@ -1135,6 +1179,11 @@ pub fn run(ctx: &mut Ctx) {
                 if let Ok(p) = parse_sam(&c.sam_text()) {
                     eprintln!("{:?}", codec_attribution(&c, &p));
                 }
+            }
+            Some("blocksize") => {
+                let id: i32 = case.get(1).and_then(|s| s.parse().ok()).unwrap_or(0);
+                let len: usize = case.get(2).and_then(|s| s.parse().ok()).unwrap_or(0);
+                block_size_case(ctx, id, len);
             }
             Some("corpus") => {
                 let k: usize = case.get(1).and_then(|s| s.parse().ok()).unwrap_or(0);
